@@ -6,10 +6,18 @@
 //
 // Time model (DESIGN.md C11): one tick is the time quantum. A tick is an
 // environment event that is only enabled at FULL quiescence (every thread
-// natively blocked or finished, no due base timer undelivered), i.e.
-// computation is instantaneous relative to a tick and base timers are
-// prompt. Which side of a tick a Suspend/Resume/cancel falls on is a free
+// natively blocked or finished), i.e. computation is instantaneous relative
+// to a tick. Which side of a tick a Suspend/Resume/cancel falls on is a free
 // choice, and a fired base timer still races with them for the clock's mutex.
+//
+// Base timers FIRE promptly (the value they publish is stamped with their
+// firing instant T = their deadline), but the value may be DELIVERED LATE to
+// the goroutine of the clock under test: up to maxLate ticks - and any
+// Suspend/Resume/cancel steps - may pass between T and the delivery ("late
+// tick", a deviation of cost 1 each). This models a clock goroutine that is
+// scheduled late on a loaded worker; once a value is delivered it is
+// processed within the same instant. The deadline of the base CONTEXT is
+// always prompt.
 // The fake base clock has a timer resolution of one tick: a timer armed for
 // less than one tick (the zero-length re-arm of threshold 0) fires at the
 // next tick.
@@ -31,6 +39,9 @@ import (
 const (
 	prop = "C11"
 	tick = time.Second
+	// maxLate: a due base timer is delivered at most this many ticks after
+	// its firing instant.
+	maxLate = 2
 )
 
 var epoch = time.Unix(1000, 0)
@@ -44,6 +55,13 @@ type fakeTimer struct {
 	deadline int // tick
 	ch       chan time.Time
 	state    int // 0 armed, 1 fired, 2 stopped
+	// isCap: the maximum-suspension timer of SuspendableClock.NewTimer (the
+	// first base timer of a NewTimer scenario), as opposed to a timer of
+	// the re-arm loop.
+	isCap bool
+	// uAtDue: reference unsuspended running time of the command at the
+	// firing instant (recorded by the tick that reaches the deadline).
+	uAtDue int
 }
 
 func (t *fakeTimer) Stop() bool {
@@ -100,6 +118,13 @@ type fakeClock struct {
 	// case of the goroutine's select is ever ready when it is evaluated,
 	// so Go's random choice among ready cases never comes into play.
 	busy bool
+	// capFirst: the first timer created is the maximum-suspension timer.
+	capFirst bool
+	// onRearm is called (without c.mu) when the goroutine of the clock
+	// under test arms a base timer after having processed a delivery.
+	onRearm func(d time.Duration)
+	// onDeliver is called (without c.mu) for every delivered timer.
+	onDeliver func(t *fakeTimer, now int)
 }
 
 func (c *fakeClock) at(t int) time.Time { return epoch.Add(time.Duration(t) * tick) }
@@ -122,6 +147,7 @@ func (c *fakeClock) NewTimer(d time.Duration) (clock.Timer, <-chan time.Time) {
 	c.mu.Lock()
 	defer c.mu.Unlock()
 	t := &fakeTimer{c: c, id: c.nextID, deadline: c.now + c.ticksOf(d), ch: make(chan time.Time, 1)}
+	t.isCap = c.capFirst && t.id == 0
 	c.nextID++
 	c.timers = append(c.timers, t)
 	// The goroutines of the clock under test arm a base timer at the top
@@ -133,7 +159,13 @@ func (c *fakeClock) NewTimer(d time.Duration) (clock.Timer, <-chan time.Time) {
 	if c.x != nil {
 		c.x.ResetLocal(fmt.Sprintf("armed:%d", t.deadline-c.now))
 	}
+	rearm := c.busy
 	c.busy = false
+	if rearm && c.onRearm != nil {
+		c.mu.Unlock()
+		c.onRearm(d)
+		c.mu.Lock()
+	}
 	return t, t.ch
 }
 
@@ -187,13 +219,57 @@ func (c *fakeClock) deliverContext(f *fakeContext) {
 	f.finish(context.DeadlineExceeded)
 }
 
+// deliverTimer hands the value of a due timer to its receiver. The value is
+// stamped with the firing instant (the deadline), which may lie in the past.
 func (c *fakeClock) deliverTimer(t *fakeTimer) {
 	c.mu.Lock()
 	c.busy = true
 	t.state = 1
-	v := c.at(c.now)
+	v := c.at(t.deadline)
+	now := c.now
 	c.mu.Unlock()
+	if c.onDeliver != nil {
+		c.onDeliver(t, now)
+	}
 	t.ch <- v // buffered, never blocks
+}
+
+// dueKinds: is a loop timer / the cap timer due and undelivered, and how late
+// is the oldest of them?
+func (c *fakeClock) dueKinds() (loop, capT bool, oldest int) {
+	c.mu.Lock()
+	defer c.mu.Unlock()
+	for _, t := range c.timers {
+		if t.state == 0 && t.deadline <= c.now {
+			if t.isCap {
+				capT = true
+			} else {
+				loop = true
+			}
+			if l := c.now - t.deadline; l > oldest {
+				oldest = l
+			}
+		}
+	}
+	return
+}
+
+// markDue records the reference accounting at the firing instant of the
+// timers that fire now.
+func (c *fakeClock) markDue(u int) {
+	c.mu.Lock()
+	defer c.mu.Unlock()
+	for _, t := range c.timers {
+		if t.state == 0 && t.deadline == c.now {
+			t.uAtDue = u
+		}
+	}
+}
+
+func (c *fakeClock) nowTick() int {
+	c.mu.Lock()
+	defer c.mu.Unlock()
+	return c.now
 }
 
 func (c *fakeClock) advance() {
@@ -202,14 +278,19 @@ func (c *fakeClock) advance() {
 	c.mu.Unlock()
 }
 
-func (c *fakeClock) key() string {
+// key: u is the current reference unsuspended running time (a due timer is
+// described by its lateness and by the unsuspended time that has passed since
+// its firing instant).
+func (c *fakeClock) key(u int) string {
 	c.mu.Lock()
 	defer c.mu.Unlock()
 	var b strings.Builder
 	fmt.Fprintf(&b, "now=%d,busy=%v|T", c.now, c.busy)
 	var ts []string
 	for _, t := range c.timers {
-		if t.state == 0 {
+		if t.state == 0 && t.deadline <= c.now {
+			ts = append(ts, fmt.Sprintf("%d/%d/%v", t.deadline-c.now, u-t.uAtDue, t.isCap))
+		} else if t.state == 0 {
 			ts = append(ts, fmt.Sprintf("%d", t.deadline-c.now))
 		} else if len(t.ch) > 0 {
 			ts = append(ts, "undrained")
@@ -287,6 +368,14 @@ type world struct {
 	wall, u  int  // ticks since the command started / of those, ticks with refCount == 0
 	// cancelled: the command called cancel() / Stop().
 	cancelled bool
+	// Late delivery: lateU = ticks that counted into u and were taken while
+	// a due timer of the re-arm loop was undelivered; lateCap = ticks taken
+	// while the due maximum-suspension timer (NewTimer) was undelivered.
+	lateU, lateCap int
+	lateAny        bool // some late tick was taken
+	// The most recent timer delivery: instant of the delivery, firing
+	// instant of the timer, reference u at the firing instant.
+	delivNow, delivStamp, delivU int
 
 	// Storage readers: number of Suspend/Resume calls made, current
 	// nesting depth, and the operation chosen by the last reader event.
@@ -332,7 +421,16 @@ func (w *world) lower() int {
 	return w.p.d - w.p.threshold + 1
 }
 
-// inWindow: may the timeout fire at the current instant?
+// upperU: the largest unsuspended running time at which the timeout may be
+// detected: the timeout, plus the resolution slack, plus the unsuspended
+// ticks during which the expiry of a loop timer was in flight (delivered late).
+func (w *world) upperU() int { return w.p.d + w.rho() + w.lateU }
+
+// upperWall: the wall-clock bound, plus the ticks during which the expiry of
+// the maximum-suspension timer was in flight.
+func (w *world) upperWall() int { return w.limit() + w.lateCap }
+
+// inWindow: may the timeout be raised at the current instant?
 func (w *world) inWindow() bool {
-	return (w.lower() <= w.u && w.u <= w.p.d+w.rho()) || w.wall == w.limit()
+	return (w.lower() <= w.u && w.u <= w.upperU()) || (w.limit() <= w.wall && w.wall <= w.upperWall())
 }
